@@ -92,8 +92,9 @@ def run(ctx):
                 pass
         # mass_nonlinear: inside and outside the tabulated range, z = 0 and z > 0
         nmnl = 0
-        for (lo, hi, z) in [(10.0, 15.0, 0.0), (13.5, 15.5, 0.0), (13.5, 15.5, 1.0), (6.0, 9.0, 0.0), (10.0, 15.0, 1.0), (14.0, 15.5, 2.0)]:
-            mf = MassFunction(transfer_model="EH", Mmin=lo, Mmax=hi, dlog10m=0.05, z=z, lnk_min=-14.0, lnk_max=12.0, dlnk=0.05)
+        for (lo, hi, z, dc) in [(10.0, 15.0, 0.0, 1.686), (13.5, 15.5, 0.0, 1.686), (13.5, 15.5, 1.0, 1.686), (6.0, 9.0, 0.0, 1.686), (10.0, 15.0, 1.0, 1.686), (14.0, 15.5, 2.0, 1.686),
+                                (13.5, 15.5, 0.0, 1.5), (6.0, 9.0, 0.0, 2.0), (14.0, 15.5, 1.0, 1.4), (10.0, 15.0, 0.0, 1.5)]:
+            mf = MassFunction(transfer_model="EH", Mmin=lo, Mmax=hi, dlog10m=0.05, z=z, delta_c=dc, lnk_min=-14.0, lnk_max=12.0, dlnk=0.05)
             mnl = float(np.atleast_1d(mf.mass_nonlinear)[0])
             nmnl += 1
             if not (mnl > 0 and np.isfinite(mnl)):
@@ -101,7 +102,7 @@ def run(ctx):
             rr = mf.filter.mass_to_radius(np.array([mnl]), mf.mean_density0)
             s = float(mf.filter.sigma(rr)[0] * mf._normalisation * mf.growth_factor)
             if abs(s / mf.delta_c - 1) > 5e-3:
-                viol("mass_nonlinear/sigma-ne-delta_c", f"sigma(mass_nonlinear)={s:.4f} != delta_c={mf.delta_c} for grid [{lo},{hi}], z={z} (mass_nonlinear={mnl:.4g})", {"Mmin": lo, "Mmax": hi, "z": z})
+                viol("mass_nonlinear/sigma-ne-delta_c", f"sigma(mass_nonlinear)={s:.4f} != delta_c={mf.delta_c} for grid [{lo},{hi}], z={z} (mass_nonlinear={mnl:.4g})", {"Mmin": lo, "Mmax": hi, "z": z, "delta_c": dc})
         # Behroozi adds only its documented correction to the Tinker10 dn/dm
         for z in (0.0, 1.0, 3.0, 6.0):
             kw = dict(transfer_model="EH", Mmin=10.0, Mmax=15.0, dlog10m=0.25, z=z, lnk_min=-12.0, lnk_max=10.0, dlnk=0.2)
